@@ -95,7 +95,7 @@ def hertz_paraboloidal(delta, E, R, nu, contact_point=0, baseline=0):
     aa = 4/3 * E/(1-nu**2)*np.sqrt(R)
     root = contact_point-delta
     pos = root > 0
-    bb = np.zeros_like(delta)
+    bb = np.zeros_like(delta, dtype=float)
     bb[pos] = (root[pos])**(3/2)
     return aa*bb + baseline
 
